@@ -140,7 +140,8 @@ def mutate(rng, toks):
 
 
 PLACEHOLDERS = [b"$", b"$0", b"$1", b"$007", b"$2147483647", b"$2147483648", b"$4294967296", b"$4294967297", b"$99999999999999999999",
-                b"$18446744073709551617", b"$-1", b"$+1", b"$1_0", b"$ 1", b"$1a", b"$0x1", b"$1e3", b"$00000000000000000000001"]
+                b"$18446744073709551617", b"$-1", b"$+1", b"$1_0", b"$ 1", b"$1a", b"$0x1", b"$1e3", b"$00000000000000000000001",
+                b"$010", b"$0017", b"$08", b"$09", b"$0100", b"$0777", b"$00", b"$000", b"$012345670", b"$019"]
 
 DIRECTED = [b'a="1" & b="2" | c="3"', b'a="1" "abc', b'a="1" \xc3\xa9', b'a="1" ; x y', b'a="1" )', b'a="1" ;', b'a="1" ; x,', b'a="1" ; ,x', b'(a="1"', b'a="1")',
             b'((a="1"))', b'^^a="1"', b'^(a="1" & b="2")', b'a = "x""y"', b'a=""', b'a="', b'a=', b'a', b'', b' ', b'^', b'()', b'a="1" & ', b'& a="1"',
